@@ -110,6 +110,11 @@ EXTRA = [
         {"name": "urgency", "type": "Level", "default": "HIGH"}, {"name": "impact", "type": "tk.Level", "default": "MID"},
         {"name": "where", "type": {"type": "record", "name": "Pt", "fields": [{"name": "x", "type": "int"}]}, "default": {"x": -1}}, {"name": "dest", "type": "Pt", "default": {"x": 9}},
         {"name": "tag", "type": {"type": "fixed", "name": "Tg", "size": 2}, "default": "ab"}, {"name": "tag2", "type": "Tg", "default": "cd"}]},
+    {"type": "record", "name": "Pick", "namespace": "pk", "fields": [
+        {"name": "u", "type": [
+            {"type": "record", "name": "Small", "fields": [{"name": "a", "type": "int", "default": 0}, {"name": "b", "type": "int", "default": 0}]},
+            {"type": "record", "name": "Large", "fields": [{"name": "a", "type": "int", "default": 0}, {"name": "b", "type": "int", "default": 0}, {"name": "c", "type": "int", "default": 0}]}]},
+        {"name": "us", "type": {"type": "array", "items": ["null", "Small", "Large"]}, "default": []}]},
     {"type": "record", "name": "Outer", "namespace": "u", "fields": [
         {"name": "pick", "type": [
             {"type": "record", "name": "First", "fields": [{"name": "x", "type": "int"}]},
@@ -177,7 +182,27 @@ def ops(fa, schema, d, raw_for_reader=None):
         fo.seek(0)
         return (a, list(fa.reader(fo, reader_schema=schema)))
 
+    def resolve_added():
+        # data written under the raw schema WITHOUT its defaulted top-level fields, read with the form under test:
+        # the reader-only fields must be filled from the form's defaults (their types may be by-name references)
+        if raw_for_reader is None or not (isinstance(raw_for_reader, dict) and raw_for_reader.get("type") == "record"):
+            return None
+        keep = [f for f in raw_for_reader["fields"] if "default" not in f]
+        if len(keep) == len(raw_for_reader["fields"]) or not isinstance(d, dict):
+            return None
+        try:
+            wr = dict(copy.deepcopy(raw_for_reader), fields=copy.deepcopy(keep))
+            fa.parse_schema(copy.deepcopy(wr))
+        except Exception:
+            return None  # the reduced schema loses a definition that a kept field refers to
+        d2 = {k: v for k, v in d.items() if k in {f["name"] for f in keep}}
+        fo = io.BytesIO()
+        fa.schemaless_writer(fo, copy.deepcopy(wr), d2)
+        fo.seek(0)
+        return fa.schemaless_reader(fo, copy.deepcopy(wr), schema)
+
     out["as-reader-schema"] = outcome(resolve)
+    out["as-reader-with-added-fields"] = outcome(resolve_added)
     out["schemaless"] = outcome(sl)
     out["container"] = outcome(cont)
     out["json"] = outcome(js)
@@ -226,6 +251,8 @@ def run_unit(i, tier):
     top_named = isinstance(raw, dict) and raw.get("type") in ("record", "enum", "fixed")
     hoistable = allnamed[1:] if top_named else allnamed
     data = [d for d, c in alphabet.data_for(node, defs, 1, hints=False, big=False)][:60]
+    if isinstance(raw, dict) and raw.get("name") == "Pick":
+        data += [{"u": {"a": 1, "b": 2, "c": 3}}, {"u": {"c": 3}}, {"u": {"a": 1}}, {"u": {}, "us": [{"a": 1, "b": 2, "c": 3}, {"b": 1}, None]}]
     forms = [("raw", lambda: copy.deepcopy(raw), frozenset())]
     parsed = fa.parse_schema(copy.deepcopy(raw))
     forms.append(("parsed", lambda: parsed, frozenset()))
